@@ -784,7 +784,7 @@ void read_metadata_from_remarks(Structure& st) {
     int num = read_int(line + 7, 3);
     switch (num) {
       case 2:
-        if (st.resolution == 0.0 && std::strstr(line, "ANGSTROM"))
+        if (st.resolution == 0.0 && remark.size() > 23 && std::strstr(line, "ANGSTROM"))
           st.resolution = read_double(line + 23, 7);
         break;
       case 3:
